@@ -50,11 +50,11 @@ N     == Len(Script)
 
 \* component pools
 ConnP == {AnyT, Wd("A"), Wd("B")}
-ObjP  == {AnyO, TypeO("wl_callback"), TypeO("wl_surface"), TypeO("wl_*"), TypeO("wl_data_offer"), IdO(3), IdO(5), IdO(1),
+ObjP  == {AnyO, TypeO("wl_callback"), TypeO("wl_surface"), TypeO("wl_*"), TypeO("wl_c*callback"), TypeO("wl_data_offer"), IdO(3), IdO(5), IdO(1),
           IdGenO(5, 0), IdGenO(5, 1), IdGenO(3, 1), IdO(S1), IdGenO(S1, 1), [k |-> "nil"],
           [k |-> "list", pos |-> <<TypeO("wl_callback"), IdO(4)>>, neg |-> <<IdGenO(5, 1)>>],
           [k |-> "list", pos |-> <<>>, neg |-> <<TypeO("wl_display")>>]}
-NameP == {AnyT, Wd("sync"), Wd("new"), Wd("destroyed"), Wd("s*"), Wd("*e*"), Wd("delete_id"),
+NameP == {AnyT, Wd("sync"), Wd("new"), Wd("destroyed"), Wd("s*"), Wd("s*sync"), Wd("*e*"), Wd("delete_id"),
           [k |-> "list", pos |-> <<Wd("frame"), Wd("commit")>>, neg |-> <<>>],
           [k |-> "list", pos |-> <<>>, neg |-> <<Wd("done")>>]}
 ArgI(hn, nm, v) == [k |-> "arg", hasname |-> hn, name |-> nm, val |-> v]
